@@ -417,6 +417,21 @@ class Impl:
             reg(line[2], dpath + [line[2][0]])
             self.nimports += 1
             return first
+        if op == "copy_block":
+            # oracle scenes only (not part of the modelled history language): an id-keeping copy of a block inside
+            # its own file, File.create_block(name=..., copy_from=block) with keep_copy_id left at its default; the
+            # copy of the entity with key k gets the next free key, in the order of the keys
+            sent, src = self.get(line[1], ("block",))
+            f.create_block(name=line[2], copy_from=src)
+            old, first = sent["path"][0], self.next
+            for k in sorted(self.reg):
+                e = self.reg[k]
+                if k < first and e["kind"] != "section" and e["path"][0] == old:
+                    self.reg[self.next] = {"kind": e["kind"], "hkind": e["hkind"], "path": [line[2]] + e["path"][1:],
+                                           "id": e["id"]}
+                    self.next += 1
+            self.nblockcopies = getattr(self, "nblockcopies", 0) + 1
+            return first
         if op == "reopen":
             f.close()
             self.cached = {}
@@ -982,7 +997,7 @@ def _raw_tree(g, sub):
         kids = _raw_tree(c[sub], sub) if sub in c else []
         md = _attr(c["metadata"], "entity_id") if "metadata" in c else None
         out.append({"id": _attr(c, "entity_id"), "name": _attr(c, "name"), "type": _attr(c, "type"),
-                    "md": md, "children": kids})
+                    "md": md, "children": kids, "h5": c.name})
     return out
 
 
@@ -992,7 +1007,8 @@ def raw_structure(h5):
     data = h5["data"]
     for bn in _crt_names(data):
         bg = data[bn]
-        blk = {"id": _attr(bg, "entity_id"), "md": _attr(bg["metadata"], "entity_id") if "metadata" in bg else None,
+        blk = {"id": _attr(bg, "entity_id"), "h5": bg.name,
+               "md": _attr(bg["metadata"], "entity_id") if "metadata" in bg else None,
                "sources": _raw_tree(bg["sources"], "sources") if "sources" in bg else [], "holders": []}
         for hk in HKINDS:
             cont = HCONT[hk]
@@ -1037,6 +1053,20 @@ def _all_nodes(roots, parent=None, acc=None):
         acc.append((n, parent))
         _all_nodes(n["children"], n, acc)
     return acc
+
+
+def _h5name(e):
+    """the HDF5 path of the object behind an entity handle (ids may be shared by the blocks of one file: a block
+    made by File.create_block(copy_from=...) keeps the ids of the original and of everything in it)"""
+    try:
+        return e._h5group.group.name
+    except Exception:
+        return None
+
+
+def _in_block(x, rb):
+    nm = _h5name(x)
+    return x.id if nm is not None and nm.startswith(rb["h5"] + "/") else "%s at %s" % (x.id, nm)
 
 
 ORACLE_FILTERS = [["all"], ["name", "a"], ["name", "b"], ["type", "t1"], ["name_and_type", "a", "t2"], ["not_name", "x"]]
@@ -1135,6 +1165,9 @@ def check_state(impl, history, failures, tag, full=True, rng=None):
         fail("blocks are not listed in stored order", ["iter", "blocks"], [b.id for b in api_blocks],
              [b["id"] for b in st["blocks"]], "file.py")
         return n_eval
+    # ids shared between blocks (id-keeping block copies): then the objects are told apart by their HDF5 paths
+    allids = [rb["id"] for rb in st["blocks"]] + [n["id"] for rb in st["blocks"] for n, _p in _all_nodes(rb["sources"])]
+    shared = len(set(allids)) != len(allids)
     for b, rb in zip(api_blocks, st["blocks"]):
         note(rb["md"], "blocks", rb["id"])
         check_find(b, "find_sources", rb["sources"], False, ["block", rb["id"]])
@@ -1167,23 +1200,31 @@ def check_state(impl, history, failures, tag, full=True, rng=None):
                         if s.id == n["id"]:
                             cands.append((["link", rh["id"]], s))
             want = None if par is None else par["id"]
+            qid = n["id"] if not shared else [n["id"], n["h5"]]
             for via, hh in cands:
                 n_eval += 2
+                want_s = want
                 try:
                     p = hh.parent_source
                     got = None if p is None else p.id
+                    if shared and p is not None and got == want and _h5name(p) != par["h5"]:
+                        got, want_s = [got, _h5name(p)], [want, par["h5"]]
                 except Exception as e:
                     got = "%s: %s" % (type(e).__name__, e)
-                if got != want:
-                    fail("Source.parent_source is not the containing source", ["parent_source", n["id"], via], got,
-                         want, "source.py:parent_source")
+                if got != want_s:
+                    fail("Source.parent_source is not the containing source", ["parent_source", qid, via], got,
+                         want_s, "source.py:parent_source")
+                want_b = rb["id"]
                 try:
-                    got = hh.parent_block.id
+                    pb = hh.parent_block
+                    got = pb.id
+                    if shared and got == want_b and _h5name(pb) != rb["h5"]:
+                        got, want_b = [got, _h5name(pb)], [want_b, rb["h5"]]
                 except Exception as e:
                     got = "%s: %s" % (type(e).__name__, e)
-                if got != rb["id"]:
-                    fail("Source.parent_block is not the containing block", ["parent_block", n["id"], via], got,
-                         rb["id"], "source.py:parent_block")
+                if got != want_b:
+                    fail("Source.parent_block is not the containing block", ["parent_block", qid, via], got,
+                         want_b, "source.py:parent_block")
             # referring lists of the source = inverse of the stored `sources` links
             allref = []
             for hk in HKINDS:
@@ -1191,20 +1232,20 @@ def check_state(impl, history, failures, tag, full=True, rng=None):
                 allref += want_l
                 n_eval += 1
                 try:
-                    got_l = sorted(x.id for x in getattr(h, "referring_" + HCONT[hk]))
+                    got_l = sorted((_in_block(x, rb) if shared else x.id) for x in getattr(h, "referring_" + HCONT[hk]))
                 except Exception as e:
                     got_l = "%s: %s" % (type(e).__name__, e)
                 if got_l != want_l:
                     fail("Source.referring_%s is not the inverse of the stored source links" % HCONT[hk],
-                         ["referring", n["id"], HCONT[hk]], got_l, want_l, "source.py:referring_" + HCONT[hk])
+                         ["referring", qid, HCONT[hk]], got_l, want_l, "source.py:referring_" + HCONT[hk])
             n_eval += 1
             try:
-                got_l = sorted(x.id for x in h.referring_objects)
+                got_l = sorted((_in_block(x, rb) if shared else x.id) for x in h.referring_objects)
             except Exception as e:
                 got_l = "%s: %s" % (type(e).__name__, e)
             if got_l != sorted(allref):
                 fail("Source.referring_objects is not the inverse of the stored source links",
-                     ["referring", n["id"], "objects"], got_l, sorted(allref), "source.py:referring_objects")
+                     ["referring", qid, "objects"], got_l, sorted(allref), "source.py:referring_objects")
     # metadata handles reached through links: parent must still be the container
     for b, rb in zip(api_blocks, st["blocks"]):
         ents = [b] + [h for hk in HKINDS for h in getattr(b, HCONT[hk])] + b.find_sources()
@@ -1289,7 +1330,63 @@ FIXED_CASES = [
      ["copy_section", 0, 2, "", True], ["copy_section", 1, None, "", True], ["copy_section", 3, None, "b", False],
      ["create_block", "b", "t1"], ["create_source", 24, "x", "t1"], ["set_metadata", 25, 4], ["set_metadata", 24, 1],
      ["set_link", 4, 1]],
+    # id-keeping copies of a block inside its file (File.create_block(copy_from=...): the copy holds sources and
+    # linking objects with the ids of the original), links diverge afterwards; the copy is named after / before the
+    # original; a copy of the copy
+    [["create_section", None, "s", "t1"], ["create_block", "b", "t1"], ["create_source", 1, "x", "t1"],
+     ["create_source", 2, "y", "t1"], ["create_source", 3, "z", "t2"], ["create_source", 1, "w", "t2"],
+     ["create_holder", 1, "data_array", "d", "t1"], ["link_source", 6, 4], ["set_metadata", 4, 0],
+     ["copy_block", 1, "c"], ["create_holder", 7, "data_array", "e", "t1"], ["link_source", 13, 10],
+     ["create_holder", 7, "tag", "t", "t1"], ["link_source", 14, 11], ["create_holder", 7, "group", "g", "t1"],
+     ["link_source", 15, 11], ["create_source", 9, "q", "t1"], ["create_holder", 1, "multi_tag", "m", "t1"],
+     ["link_source", 17, 3]],
+    [["create_block", "b", "t1"], ["create_source", 0, "x", "t1"], ["create_source", 1, "x", "t2"],
+     ["create_holder", 0, "tag", "t", "t1"], ["link_source", 3, 2], ["copy_block", 0, "a"],
+     ["unlink_source", 7, 6], ["link_source", 7, 5], ["create_holder", 0, "group", "g", "t1"], ["link_source", 8, 1],
+     ["copy_block", 4, "z"], ["create_holder", 9, "data_array", "d", "t2"], ["link_source", 13, 11],
+     ["link_source", 13, 10], ["delete", 1]],
 ]
+
+
+def diverge_block_copy(impl, rng, lines):
+    """oracle scenes: copy one block of the file with its ids kept, then let the links of the blocks diverge"""
+    blocks = [k for k, e in impl.reg.items() if e["kind"] == "block"]
+    if not blocks:
+        return
+    taken = set(impl.reg[k]["path"][0] for k in blocks)
+    free = [nm for nm in ["0"] + WIDE_NAMES + ["zz"] if nm not in taken]
+    orig = max(blocks, key=lambda k: (sum(1 for e in impl.reg.values() if e["path"][0] == impl.reg[k]["path"][0]
+                                          and e["kind"] != "section"), rng.random()))
+    if rng.random() < 0.3:
+        orig = rng.choice(blocks)
+    line = ["copy_block", orig, rng.choice(free)]
+    out = impl.do(line)
+    lines.append(line)
+    if "ok" not in out:
+        return
+    pair = [orig, out["ok"]]
+    for _ in range(rng.choice([4, 8, 14])):
+        bk = rng.choice(pair)
+        if bk not in impl.reg:
+            break
+        bname = impl.reg[bk]["path"][0]
+        srcs = [k for k, e in impl.reg.items() if e["kind"] == "source" and e["path"][0] == bname]
+        holds = [k for k, e in impl.reg.items() if e["kind"] == "holder" and e["path"][0] == bname]
+        r = rng.random()
+        if r < 0.25 or not holds:
+            line = ["create_holder", bk, rng.choice(HKINDS), rng.choice(WIDE_NAMES), rng.choice(TYPES)]
+        elif r < 0.65 and srcs:
+            line = ["link_source", rng.choice(holds), rng.choice(srcs)]
+        elif r < 0.75 and srcs:
+            line = ["unlink_source", rng.choice(holds), rng.choice(srcs)]
+        elif r < 0.87:
+            line = ["create_source", rng.choice(srcs + [bk]), rng.choice(impl.names), rng.choice(TYPES)]
+        else:
+            line = gen_op(impl, rng, "build")
+            if line[0] in QUERY_OPS:
+                continue
+        impl.do(line)
+        lines.append(line)
 
 
 def oracle(ctx, broken, hints):
@@ -1328,9 +1425,12 @@ def oracle(ctx, broken, hints):
                 lines.append(line)
                 if rng.random() < 0.08:
                     n += check_state(impl, list(lines), failures, "live", False, rng)
+            if i % 3 == 1:
+                # every third scene: an id-keeping block copy whose links diverge afterwards
+                diverge_block_copy(impl, rng, lines)
             n += check_state(impl, list(lines), failures, "live", True, rng)
             impl.do(["reopen"])
-            n += check_state(impl, list(lines), failures, "reopened", i % 3 == 0, rng)
+            n += check_state(impl, list(lines), failures, "reopened", i % 3 == 0 or i % 6 == 1, rng)
         finally:
             impl.close()
         hist += 1
@@ -1378,7 +1478,11 @@ MANIFEST = {
                   "silent pass). The forest model and the interpreter are tied to the code by differential histories on "
                   "real HDF5 files (names repeated across subtrees and levels, sections with caller-supplied ids in upper case / "
                   "braces / urn / without hyphens / mixed case, copies, handles that are cached / re-fetched "
-                  "/ found / reached through metadata and source links, reopen). Partial aspects: a look-up that would "
+                  "/ found / reached through metadata and source links, reopen). The property oracle (raw HDF5 structure "
+                  "against every observable) additionally runs scenes that are outside the modelled history language: "
+                  "id-keeping copies of a block inside its file (File.create_block(copy_from=...), both blocks then hold "
+                  "sources and linking objects with equal ids) whose links diverge afterwards; there parent_block / "
+                  "parent_source / Source.referring_* are compared by HDF5 object, not only by id. Partial aspects: a look-up that would "
                   "canonicalise both the key and the stored id is outside what the id-text theorems accept (idempotence of "
                   "the modelled str(uuid.UUID(.)) is not proved); limits are naturals; "
                   "'unlimited' assumes tree height <= sys.maxsize; ids are creation counters (uuid4 freshness assumed); "
